@@ -287,7 +287,9 @@ def body (command family proto : Nat) (raw : Bytes) : Except Stop Header :=
     match parseAddresses family (BTok.mk' raw) h with
     | .error e => .error e
     | .ok (h1, t) =>
-      if h1.hasForwardedAddresses then
+      -- `if (header->hasForwardedAddresses())`; a tree that marks AF_UNIX headers address-less (`Gen.unixIgnoresAddresses`)
+      -- still reads the TLVs of PROXY-command ones
+      if h1.hasForwardedAddresses || (unixIgnoresAddresses && family == afUnix && command == cmdProxy) then
         match parseTLVs t.rest.length t [] with
         | .error e => .error e
         | .ok tl => .ok { h1 with tlvs := tl }
